@@ -159,6 +159,12 @@ NEEDS = {
  "C17-m1": ("json_num_option swallows the parse error", "valid JSON number whose scale overflows i64, Option adapter"),
  "C17-m2": ("visit_i128 64-bit fast path guarded by wrapping_abs", "an i128 token equal to exactly -2^127: arrives as 0"),
  "C17-m3": ("parser strips leading '+' of the exponent, then accepts one more sign", "numeric strings like 1e+-5"),
+ "C04-n1": ("exponent printed in base-10^9 blocks; an all-zero lower block is skipped instead of padded", "{:e} / {:E} / Display-E with a printed exponent that is a non-zero exact multiple of 10^9"),
+ "C12-n1": ("operand cut to p+1 digits when it has more than 2p+16 digits", "operand much longer than the precision whose dropped digits matter"),
+ "C14-n1": ("to_f64 fast path for coefficients of up to 54 bits", "short binary fractions whose decimal coefficient has exactly 54 bits: 1 ULP off on the way back"),
+ "C14-n2": ("u64 wrapping product guarded by leading_zeros sum >= 63", "one mantissa trailing-zero count per exponent where reduced_frac * 5^k reaches 2^64"),
+ "C17-n1": ("visitor trims strings before parsing", "string tokens with leading / trailing whitespace are accepted"),
+ "C17-n2": ("private-number key matched with ends_with", "a map whose single key merely ends in ::private::Number"),
 }
 OUT_OF_SCOPE = {"C04-j3"}
 def sh(cmd, **kw):
@@ -200,7 +206,7 @@ for name in sorted(os.listdir(os.path.join(HERE, "seeded"))):
     print(name, verdict, rule, "run", run, f"{dt:.0f}s", flush=True)
 if not only and not os.environ.get("RUN_SEEDED_DRY"):
     with open(os.path.join(HERE, "SENSITIVITY.md"), "w") as f:
-        f.write("# Sensitivity: seeded changes vs. checks\n\nEach change compiles, passes the 861-test suite, and breaks its property (demonstration in `seeded/<id>/demo.rs`, confirmation in `confirmation.txt`). Written by fifty-two sub-agents in nine rounds that saw only the property text (rounds 2-3: asked for subtle changes that random testing would most likely miss; round 4: changes confined to shared helper code outside the property's own files; round 5: changes that manifest only through the environment - a failing caller-supplied writer, a platform-dependent exp2 / powi result, a serde peer; rounds 6-7: told to assume very thorough checking - round 7 was given a description of the kinds of checks in place - and to find what would still slip through). Regenerate with `tools/run_seeded.py` (applies each patch to /repo, runs the quick check, reverts).\n\n| seeded change | property | quick check | rule that fired | first failing run | what it needs |\n|---|---|---|---|---|---|\n")
+        f.write("# Sensitivity: seeded changes vs. checks\n\nEach change compiles, passes the 861-test suite, and breaks its property (demonstration in `seeded/<id>/demo.rs`, confirmation in `confirmation.txt`). Written by fifty-six sub-agents in ten rounds that saw only the property text (rounds 2-3: asked for subtle changes that random testing would most likely miss; round 4: changes confined to shared helper code outside the property's own files; round 5: changes that manifest only through the environment - a failing caller-supplied writer, a platform-dependent exp2 / powi result, a serde peer; rounds 6-7: told to assume very thorough checking - round 7 was given a description of the kinds of checks in place - and to find what would still slip through). Regenerate with `tools/run_seeded.py` (applies each patch to /repo, runs the quick check, reverts).\n\n| seeded change | property | quick check | rule that fired | first failing run | what it needs |\n|---|---|---|---|---|---|\n")
         for (name, prop, verdict, rule, run) in rows:
             f.write(f"| {name} | {prop} | {verdict} | {rule} | {run} | {NEEDS.get(name, ('',''))[1]} |\n")
         caught = sum(1 for r in rows if r[2] == "CAUGHT")
